@@ -331,26 +331,58 @@ int main() {
             printf("{\"ev\":\"script\",\"cvode\":%zu,\"reinit\":%zu}\n", verif_shim.cvode_script.size(), verif_shim.reinit_script.size());
 #ifndef VERIF_NO_NAUNET
         } else if (cmd == "solve") {
-            double dt; in >> dt;
+            double dt; int verbose = 0; in >> dt; in >> verbose;
             double *ab = (double *)malloc(sizeof(double) * NEQUATIONS);
             for (int i = 0; i < NEQUATIONS; i++) ab[i] = g_y[i];
+            remove("naunet_error_record.txt");
             Naunet *n = new Naunet();
             int r0 = n->Init();
             verif_shim.calls.clear(); verif_shim.cvode_pos = verif_shim.reinit_pos = 0;
+            verif_shim.rhs_calls = verif_shim.jac_calls = 0;
             int r = n->Solve(ab, dt, &g_data);
             n->Finalize();
             delete n;
             printf("{\"ev\":\"solve\",\"init\":%d,\"ret\":%d,\"dt\":", r0, r); pnum(dt);
             printf(","); parr("ab", ab, NEQUATIONS);
-            printf(",\"rhs_calls\":%ld,\"jac_calls\":%ld,\"live\":[%d,%d,%d,%d,%d],\"calls\":[", verif_shim.rhs_calls,
-                   verif_shim.jac_calls, verif_shim.live_vectors, verif_shim.live_matrices, verif_shim.live_solvers,
-                   verif_shim.live_contexts, verif_shim.live_cvmem);
+            int ncv = 0, nre = 0, last_flag = 0, last_kind = -1; double last_tout = 0, last_tret = 0;
             for (size_t i = 0; i < verif_shim.calls.size(); i++) {
                 const VerifCVCall &c = verif_shim.calls[i];
-                printf("%s[%d,", i ? "," : "", c.kind); pnum(c.tout); printf(","); pnum(c.tn_before); printf(","); pnum(c.tret);
-                printf(",%d]", c.flag);
+                if (c.kind == 0) { ncv++; last_flag = c.flag; last_tout = c.tout; last_tret = c.tret; }
+                if (c.kind == 1) nre++;
+                if (c.kind != 2) last_kind = c.kind;
             }
-            printf("]}\n");
+            printf(",\"cvode_calls\":%d,\"reinit_calls\":%d,\"last_kind\":%d,\"last_flag\":%d,\"last_tout\":", ncv, nre, last_kind, last_flag);
+            pnum(last_tout); printf(",\"last_tret\":"); pnum(last_tret);
+            printf(",\"script_left\":%zu", verif_shim.cvode_script.size() - verif_shim.cvode_pos);
+            // error record: the logged initial state
+            {
+                FILE *f = fopen("naunet_error_record.txt", "r");
+                std::vector<double> ylog; int unrec = 0; long bytes = 0;
+                if (f) {
+                    char buf[512];
+                    while (fgets(buf, sizeof buf, f)) {
+                        bytes += (long)strlen(buf);
+                        int idx; double v;
+                        if (sscanf(buf, "    y[%d] = %lf;", &idx, &v) == 2) ylog.push_back(v);
+                        if (strstr(buf, "unrecoverable")) unrec = 1;
+                    }
+                    fclose(f);
+                }
+                printf(",\"errfile_bytes\":%ld,\"logged_unrecoverable\":%d,", bytes, unrec); parr("y_logged", ylog.data(), (long)ylog.size());
+            }
+            printf(",\"rhs_calls\":%ld,\"jac_calls\":%ld,\"live\":[%d,%d,%d,%d,%d]", verif_shim.rhs_calls,
+                   verif_shim.jac_calls, verif_shim.live_vectors, verif_shim.live_matrices, verif_shim.live_solvers,
+                   verif_shim.live_contexts, verif_shim.live_cvmem);
+            if (verbose) {
+                printf(",\"calls\":[");
+                for (size_t i = 0; i < verif_shim.calls.size(); i++) {
+                    const VerifCVCall &c = verif_shim.calls[i];
+                    printf("%s[%d,", i ? "," : "", c.kind); pnum(c.tout); printf(","); pnum(c.tn_before); printf(","); pnum(c.tret);
+                    printf(",%d]", c.flag);
+                }
+                printf("]");
+            }
+            printf("}\n");
             free(ab);
 #endif
         } else if (cmd == "quit") {
